@@ -31,6 +31,9 @@ class Prop:
         depth = rng.choice([1, 1, 2, 2, 3])
         sc = pipe.gen(rng, depth, max_sources=3)
         sc["keep_children"] = rng.random() < 0.2
+        for s in sc["sources"]:
+            if rng.random() < 0.1:
+                s["on_dispose"] = rng.choice(["N", "C", "E"])  # calls its observer from inside the disposal of its subscription
         return sc
 
     def points(self, sc):
@@ -211,6 +214,7 @@ class Prop:
             out.sim_time += sc["horizon"]
             out.faults["dispose_" + ("note" if "note" in d else "callback" if "site" in d else d["tie"])] += 1
             out.probes.update(o.probes)
+            out.faults.update(o.faults)
             out.digests.append((o.digest, o.nontrivial))
             if o.viol and not out.viol:
                 out.viol = o.viol
@@ -225,6 +229,9 @@ class Prop:
         d = sc["dispose"]
         out.digest = (tuple(ops), json.dumps(d, sort_keys=True), rec.kinds())
         out.sim_time = sc["horizon"]
+        n_emit = len([f for f in w.fired if f[1].endswith(":emits_on_dispose")])
+        if n_emit:
+            out.faults["source_emits_on_dispose"] += n_emit
         dr = rec.disp_ret_seq
         if dr is None:
             out.probes["dispose_not_reached"] += 1
